@@ -1576,6 +1576,24 @@ DECODE_MORE:
             buf = ssl->inbuf;
             len = ssl->outlen;
         }
+        if (ssl->outlen == 0)
+        {
+            /* Nothing was queued after all (a TLS 1.3 NewSessionTicket that
+               could not be issued because the ticket keys were deleted in
+               the meantime): report what a plain success reports instead of
+               asking the caller to send zero bytes. */
+            if (!(ssl->bFlags & BFLAG_HS_COMPLETE) &&
+                matrixSslHandshakeIsComplete(ssl))
+            {
+                ssl->bFlags |= BFLAG_HS_COMPLETE;
+                rc = MATRIXSSL_HANDSHAKE_COMPLETE;
+            }
+            else
+            {
+                rc = MATRIXSSL_REQUEST_RECV;
+            }
+            break;
+        }
         rc = MATRIXSSL_REQUEST_SEND;    /* We queued data to send out */
         break;
 
